@@ -32,6 +32,10 @@ Reasons(e) ==
         retSet == {ret[i] : i \in 1..n}
         omitted == (1..Len(all)) \ retSet
     IN  (IF n # Min(100, Len(all)) THEN {<<"count", n, Len(all)>>} ELSE {})
+        \* symbol names are the heading texts of the chain (workspace/symbol against the chains of the returned entries)
+        \cup (IF "names_differ" \in DOMAIN e /\ e.names_differ # <<>> THEN {<<"symbol-names", e.names_differ>>} ELSE {})
+        \* the rank the order is built on is the number of references to the note (counted on the texts)
+        \cup {<<"rank-is-not-the-reference-count", i, all[i].rank, all[i].refs>> : i \in {j \in 1..Len(all) : "refs" \in DOMAIN all[j] /\ all[j].rank # all[j].refs}}
         \cup (IF \E i \in 1..n : ret[i] < 1 THEN {<<"returned-entry-not-in-listing">>} ELSE {})
         \cup (IF Cardinality(retSet) # n THEN {<<"entry-returned-twice">>} ELSE {})
         \cup (IF \A i \in 1..n : ret[i] >= 1
